@@ -156,7 +156,7 @@ class Source:
             r = self.prng.random()
             p = pol.get("p", 0.2)
             if r < p:
-                mode = ("min", "max", "sticky")[int(r / p * 3) % 3]
+                mode = ("min", "max", "sticky", "near", "near")[int(r / p * 5) % 5]
             else:
                 mode = "uniform"
         if mode == "uniform":
@@ -170,6 +170,10 @@ class Source:
         if mode == "sticky":
             self.sticky_hits += 1
             return self.last_int % n
+        if mode == "near":
+            # neighbouring index: in list-like draw structures adjacent slots are often related (edges of one vertex)
+            self.sticky_hits += 1
+            return (self.last_int + (1 if self.prng.random() < 0.5 else -1)) % n
         raise HarnessError(f"unknown int policy {mode!r}")
 
     def next_float(self, site):
